@@ -155,8 +155,8 @@ func runC17(r *kit.Run) {
 		for j, k := range keys {
 			in[j] = kv{k, j + 1}
 		}
-		opKind := int(i/int64(len(c17classes)*len(cmps))) % 6
-		opName := [...]string{"SortMerge", "SortQuick", "IsSorted", "Heap", "Pairs.SortMerge", "Pairs.SortQuick"}[opKind]
+		opKind := int(i/int64(len(c17classes)*len(cmps))) % 8
+		opName := [...]string{"SortMerge", "SortQuick", "IsSorted", "Heap", "Pairs.SortMerge", "Pairs.SortQuick", "Set.SortMerge", "Set.SortQuick"}[opKind]
 		caseDesc := map[string]any{"op": opName, "class": class, "cmp": cm.name, "keys": keys}
 		viol := func(kind, detail string) {
 			r.Violation("C17/"+opName+"/"+kind, i, caseDesc, detail, nil)
@@ -343,6 +343,76 @@ func runC17(r *kit.Run) {
 					viol("wrong-answer", fmt.Sprintf("IsSorted=%v, independent adjacent-pair scan says %v for %v", got, want, keys))
 				}
 				r.Count(fmt.Sprintf("issorted_%v", want), 1)
+			case 6, 7:
+				// dt.Set sorts its members through the same list code; a set
+				// that was not ordered before is ordered by the sort. The set
+				// stays usable: a member deleted afterwards is gone.
+				st := &dt.Set[kv]{}
+				if rng.IntN(2) == 0 {
+					st.Order()
+				}
+				if rng.IntN(3) == 0 {
+					st.Synchronize()
+				}
+				for _, x := range in {
+					st.Add(x)
+				}
+				if opKind == 6 {
+					st.SortMerge(cm.lt)
+				} else {
+					st.SortQuick(cm.lt)
+				}
+				walk := func() []kv {
+					var out []kv
+					it := st.Iterator()
+					for k := 0; k < len(in)+3 && it.Next(context.Background()); k++ {
+						out = append(out, it.Value())
+					}
+					_ = it.Close()
+					return out
+				}
+				out := walk()
+				if st.Len() != len(in) || len(out) != len(in) {
+					viol("not-a-permutation", fmt.Sprintf("Len()=%d iterator=%d input=%d: %v", st.Len(), len(out), len(in), out))
+					return
+				}
+				seen := map[int]int{}
+				for _, x := range out {
+					seen[x.UID]++
+				}
+				for _, x := range in {
+					if seen[x.UID] != 1 {
+						viol("not-a-permutation", fmt.Sprintf("uid %d appears %d times after sort: %v", x.UID, seen[x.UID], out))
+						return
+					}
+				}
+				for j := 1; j < len(out); j++ {
+					if cm.strict(out[j], out[j-1]) {
+						viol("out-of-order", fmt.Sprintf("position %d (%v) is less than its predecessor (%v): %v", j, out[j], out[j-1], out))
+						return
+					}
+				}
+				if len(in) > 0 {
+					victim := in[rng.IntN(len(in))]
+					st.Delete(victim)
+					after := walk()
+					if st.Check(victim) || st.Len() != len(in)-1 || len(after) != len(in)-1 {
+						viol("unusable-after-sort", fmt.Sprintf("after Delete(%v): Check=%v Len()=%d iterator yields %d of %d: %v", victim, st.Check(victim), st.Len(), len(after), len(in)-1, after))
+						return
+					}
+					for _, x := range after {
+						if x == victim {
+							viol("unusable-after-sort", fmt.Sprintf("the deleted member %v is still yielded: %v", victim, after))
+							return
+						}
+					}
+					for j := 1; j < len(after); j++ {
+						if cm.strict(after[j], after[j-1]) {
+							viol("unusable-after-sort", fmt.Sprintf("order lost after a Delete: %v", after))
+							return
+						}
+					}
+				}
 			case 4, 5:
 				// dt.Pairs sorts through the same list code
 				ps := &dt.Pairs[int, int]{}
